@@ -6,7 +6,7 @@ import OAP.Model.Frame
 import OAP.Spec.Layout
 import OAP.Proofs.Frame
 import OAP.Props.C09
-import OAP.Proofs.GenFuncs
+import OAP.Proofs.GenFuncsHdr
 namespace OAP.C02
 open OAP OAP.Frame
 
@@ -128,5 +128,10 @@ theorem header_unpackBytes_is_generated (frame : Bytes) :
 /-- non-vacuity: the translated v2 `Pack` on a concrete response header gives the layout's bytes -/
 example : Gen.Fn.v2_Header_Pack { type := 2, verify := 1, cmdCode := 7, requestId := 0x01020304, statusCode := 5, metadataLength := 0x0102, bodyLength := 0x030405 }
     = .ok [0x12, 7, 1, 2, 3, 4, 5, 1, 2, 3, 4, 5] := by decide
+
+/-- the header functions of both versions were inside the translatable subset in this run -/
+theorem functions_translated :
+    ["v1.Header.IsUnknownPacket", "v1.Header.length", "v1.Header.Pack", "v1.Header.UnpackBytes",
+     "v2.Header.length", "v2.Header.Pack", "v2.Header.UnpackBytes"].all (fun f => Gen.Fn.translated.contains f) = true := by decide
 
 end OAP.C02
